@@ -109,6 +109,19 @@ structure TLEffect (s s' : State) (q c n : Nat) : Prop where
   entry : (s'.transferred q).isSome
   keeps : ∀ d, (s.transferred d).isSome → (s'.transferred d).isSome
 
+/-- dependents only shrink in `afterTransfer` -/
+theorem afterTransfer_qshrink {s s' : State} {q nt : Nat} (hinv : GInv s [])
+    (ha : afterTransfer s q nt = some s') : QShrink s s' := by
+  unfold afterTransfer at ha
+  cases h1 : unblockTransferTarget s q nt with
+  | none => simp [h1] at ha
+  | some s6 =>
+    simp only [h1] at ha
+    obtain ⟨sh6, _, _⟩ := unblockTransferTarget_q hinv h1
+    have g6 := unblockTransferTarget_gstep hinv h1
+    obtain ⟨_, q7⟩ := updateTransferredEdges_gstep _ _ _ _ g6.inv ha
+    exact sh6.trans (QShrink.of_eq q7.qdeps)
+
 theorem transferLockCore_effect {s s' : State} {q c n nt : Nat} {o : SyncOwner} {kind : TransferKind}
     (hinv : GInv s []) (hf : Forest s) (hne : n ≠ q)
     (h : transferLockCore s q c n o = some (s', kind, nt)) :
@@ -133,14 +146,25 @@ theorem transferLockCore_effect {s s' : State} {q c n nt : Nat} {o : SyncOwner} 
         | some r =>
           cases r with
           | none =>
-            simp only [he, Option.some.injEq, Prod.mk.injEq] at h
-            obtain ⟨rfl, rfl, _⟩ := h
+            simp only [he] at h
             have hsome : (s.transferred q).isSome := by
               unfold transferEntry at he
               cases hq : s.transferred q with
               | none => simp [hq] at he
               | some v => simp
-            exact ⟨rfl, QShrink.refl _, fun hk => absurd rfl hk, fun _ => ⟨rfl, hsome⟩, fun _ hd => hd⟩
+            by_cases hcn : c = nt'
+            · simp only [hcn, if_true, Option.some.injEq, Prod.mk.injEq] at h
+              obtain ⟨rfl, rfl, _⟩ := h
+              exact ⟨rfl, QShrink.refl _, fun hk => absurd rfl hk, fun _ => ⟨rfl, hsome⟩, fun _ hd => hd⟩
+            · simp only [hcn, if_false] at h
+              cases ha : afterTransfer s q nt' with
+              | none => simp [ha] at h
+              | some s7 =>
+                simp only [ha, Option.some.injEq, Prod.mk.injEq] at h
+                obtain ⟨rfl, rfl, _⟩ := h
+                obtain ⟨e1, _⟩ := afterTransfer_sameTD hinv ha
+                exact ⟨g.sync, afterTransfer_qshrink hinv ha, (fun _ => by rw [e1]; exact hsome),
+                  (fun hk => by cases hk), (fun d hd => by rw [e1]; exact hd)⟩
           | some p =>
             obtain ⟨s4, ch⟩ := p
             simp only [he] at h
